@@ -268,6 +268,9 @@ class CExecPyObj(CExecL3):
             raise OutOfSubset("Py_IS_TYPE against %s" % tn)
         if name in ("PyList_GET_SIZE", "PyTuple_GET_SIZE", "Py_SIZE"):
             o = self.oid(self.ev(st, argn[0]))
+            if self.opt.get("model_none"):
+                # (units in which an argument MAY be None: the macro reads ob_size of whatever it is given)
+                self.oblige(st, "pre", "%s.argument_is_not_None" % name, o != NONE_OBJECT, n)
             st.path.append(z3.And(seq_len(o) >= 0, seq_len(o) < 2 ** 62))
             self.assumptions.add("%s(o) is the number of elements of the list/tuple (0 <= size, far below PY_SSIZE_T_MAX)" % name)
             key = "listsize[%s]" % o
